@@ -107,7 +107,27 @@ func stripStartCode(b []byte) []byte {
 	return b
 }
 
-func shuffle(r *Rng, s []string) {
+// formRng: the generator of the SDP forms, private to this file so that the form of a stored case line (`v=<seed>`) does
+// not change when the shared generator does (splitmix64 over the scrambled seed)
+type formRng struct{ s uint64 }
+
+func newFormRng(seed uint64) *formRng {
+	r := &formRng{s: seed ^ 0x5DEECE66D}
+	r.s = r.u64() ^ seed<<32
+	return r
+}
+func (r *formRng) u64() uint64 {
+	r.s += 0x9E3779B97F4A7C15
+	z := r.s
+	z = (z ^ (z >> 30)) * 0xBF58476D1CE4E5B9
+	z = (z ^ (z >> 27)) * 0x94D049BB133111EB
+	return z ^ (z >> 31)
+}
+func (r *formRng) Intn(n int) int    { return int(r.u64() % uint64(n)) }
+func (r *formRng) Bool() bool        { return r.u64()&1 == 1 }
+func (r *formRng) Chance(p int) bool { return r.Intn(100) < p }
+
+func shuffle(r *formRng, s []string) {
 	for i := len(s) - 1; i > 0; i-- {
 		j := r.Intn(i + 1)
 		s[i], s[j] = s[j], s[i]
@@ -116,7 +136,7 @@ func shuffle(r *Rng, s []string) {
 
 // drawForm: everything about the SDP text except the parameter set itself, from the form seed
 func drawForm(kind string, seed uint64, ps, vps0, pps0 []byte) sdpForm {
-	r := NewRng(seed)
+	r := newFormRng(seed)
 	f := sdpForm{kind: kind, pt: 96 + r.Intn(32), startCode: []int{0, 0, 3, 4}[r.Intn(4)], sep: []string{";", "; "}[r.Intn(2)]}
 	b64 := func(b []byte) string { return base64.StdEncoding.EncodeToString(append(sc(f.startCode), b...)) }
 	switch kind {
